@@ -118,7 +118,7 @@ func init() {
 				}
 				return r
 			})
-			return append(out, Inst{Pkg: "dpt", Fn: "HarnessStubCalendar", Note: "native validation of the time.Date stub over years 1895..2105 and corner years x 256 months x 256 days"})
+			return append(out, Inst{Pkg: "dpt", Fn: "HarnessStubCalendar", Note: "native validation of the time.Date stub over years 1985..2095 and corner years x 256 months x 256 days"})
 		},
 		Covers:  []string{"C08.accept", "C08.reject"},
 		Bounds:  "every registered type (names read from the registry initialiser of the current source) x every payload length 0..20, all payload bytes symbolic",
